@@ -79,12 +79,17 @@ func ParseFile(inputPath string) (areas []textArea, err error) {
 			}
 
 			// 组装数据
+			// 一个字段可能有多个注释(如: /* @tag a:"1" */ /* @tag b:"2" */), 需要合并成一个 area,
+			// 不然同一个字段会生成多个 Start/End 相同的 area, 第一个注入后第二个的位置就不对了, 需要再执行一次才会注入
+			var tags []string
 			for _, comment := range comments {
 				tag := tagFromComment(comment.Text)
 				if tag == "" {
 					continue
 				}
-
+				tags = append(tags, tag)
+			}
+			if len(tags) > 0 {
 				// 字段没有 tag 的话无法注入, 跳过
 				if field.Tag == nil {
 					continue
@@ -94,7 +99,7 @@ func ParseFile(inputPath string) (areas []textArea, err error) {
 					Start:      int(field.Pos()),
 					End:        int(field.End()),
 					CurrentTag: currentTag[1 : len(currentTag)-1], // 去掉 ``
-					InjectTag:  tag,
+					InjectTag:  strings.Join(tags, " "),
 				}
 				areas = append(areas, area)
 			}
